@@ -35,8 +35,13 @@ type vC02BCase struct {
 	// trickle mode (GapMs > 0): the i-th pin/unpin step is submitted at i*GapMs after the start, nothing is waited for in
 	// between; step.C is the index of one of 64 dedicated CIDs; for every accepted operation the time it was accepted and
 	// the time its effect showed in State() are recorded, and an age-limit commit may be late by at most SlackMs
-	GapMs   int `json:"gap_ms,omitempty"`
-	SlackMs int `json:"slack_ms,omitempty"`
+	// The timetable is given by K (number of operations) and UnpinAt (positions at which an earlier pin, by then in effect,
+	// is unpinned instead of a new CID being pinned), not by Steps: the input stays small and the runner's shrinker (which
+	// deletes list elements) cannot turn a clear delay into a marginal one by dropping operations.
+	GapMs   int   `json:"gap_ms,omitempty"`
+	SlackMs int   `json:"slack_ms,omitempty"`
+	K       int   `json:"k,omitempty"`
+	UnpinAt []int `json:"unpin_at,omitempty"`
 }
 
 const vc02TakeTimeout = 6 * time.Second // positive expectation: the worker takes an accepted item (normally microseconds)
@@ -91,19 +96,35 @@ func vC02BTrickle(r *vRand) vC02BCase {
 	if k > vc02NTCids {
 		k = vc02NTCids
 	}
-	c := vC02BCase{Size: 1000, AgeMs: age, Qcap: 200, GapMs: gap, SlackMs: slack}
+	c := vC02BCase{Size: 1000, AgeMs: age, Qcap: 200, GapMs: gap, SlackMs: slack, K: k}
 	if r.chance(25) {
 		c.Size = r.rng(5, 9)
 	}
 	back := (age+slack)/gap + 3
-	for i := 0; i < k; i++ {
-		if i >= back && r.chance(15) { // unpin of something pinned long enough ago to be in effect
-			c.Steps = append(c.Steps, vC02Step{T: "unpin", C: r.intn(i - back + 1)})
-		} else {
-			c.Steps = append(c.Steps, vC02Step{T: "pin", C: i})
+	for i := back; i < k; i++ {
+		if r.chance(15) {
+			c.UnpinAt = append(c.UnpinAt, i)
 		}
 	}
 	return c
+}
+
+// the steps of a trickle case: position i pins CID i, or (i in UnpinAt) unpins a CID pinned at least age+slack earlier
+func (c *vC02BCase) trickleSteps() []vC02Step {
+	back := (c.AgeMs+c.SlackMs)/c.GapMs + 3
+	un := map[int]bool{}
+	for _, i := range c.UnpinAt {
+		un[i] = true
+	}
+	var out []vC02Step
+	for i := 0; i < c.K; i++ {
+		if un[i] && i >= back {
+			out = append(out, vC02Step{T: "unpin", C: (i * 7) % (i - back + 1)})
+		} else {
+			out = append(out, vC02Step{T: "pin", C: i})
+		}
+	}
+	return out
 }
 
 func vc02GenFails(r *vRand, max int) []int {
@@ -272,9 +293,13 @@ func (c *vC02BCase) sanitize() {
 			c.SlackMs = 1
 		}
 		c.Fail = nil
-		if len(c.Steps) > vc02NTCids {
-			c.Steps = c.Steps[:vc02NTCids]
+		if c.K > vc02NTCids {
+			c.K = vc02NTCids
 		}
+		if c.K < 0 {
+			c.K = 0
+		}
+		c.Steps = c.trickleSteps()
 	} else {
 		c.SlackMs = 0
 	}
